@@ -156,3 +156,27 @@ package replica
 //@   modifies cast(r.channel.ConsumerGroup, "*queue.consumerGroup").acknowledgedSeq.val, any(*page.mappedPage).mappedBytes[*]
 //@   ensures[a_damaged_entry_is_acknowledged_only_when_it_directly_follows_the_acknowledged_position] queue.CGack(r.channel.ConsumerGroup) == old(queue.CGack(r.channel.ConsumerGroup)) || (replicaIdx == old(queue.CGack(r.channel.ConsumerGroup)) + 1 && queue.CGack(r.channel.ConsumerGroup) == replicaIdx)
 //@ end
+
+//@ # ---- follower side under concurrency (C08 "gap-free, byte-identical copy"): one handler goroutine per rpc stream calls
+//@ # ReplicaLog and two streams of a leader can overlap (the handler of a broken stream still works on its last request while
+//@ # the leader resends the same index on a new stream). The position check and the append of ReplicaLog are therefore ONE
+//@ # critical section of the partition's replica lock: both the read of the appended position and the append happen while
+//@ # the lock is held, and the function enters exactly one such section (sequential contract above + this = the contract
+//@ # holds for every interleaving of handlers). ResetReplicaIndex moves the position under the same lock -----------------
+//@ lock partition.replicaMutex protects
+//@ ghost field partition.checkedUnderLock bool
+//@ ghost field partition.putUnderLock bool
+//@ stable partition.checkedUnderLock
+//@ stable partition.putUnderLock
+//@ func partition.ReplicaLog#atomic
+//@   prop C08
+//@   atomic replicaMutex
+//@   ghost_entry p.checkedUnderLock = false
+//@   ghost_entry p.putUnderLock = false
+//@   ghost_after Queue.AppendedSeq p.checkedUnderLock = locked(p.replicaMutex)
+//@   ghost_after Queue.Put p.putUnderLock = locked(p.replicaMutex)
+//@   requires partOK(p) && replicaIdx >= 1 && !locked(p.replicaMutex)
+//@   modifies *
+//@   ensures[the_position_check_and_the_append_are_one_critical_section] (result1 == nil && result0 == replicaIdx) ==> (p.checkedUnderLock && p.putUnderLock)
+//@   ensures[the_lock_is_released] !locked(p.replicaMutex)
+//@ end
